@@ -293,6 +293,22 @@ def option_histories(ctx):
                     'what': 'doctests run one after the other over shared default options %r: passed=%r, by construction %r' % (dflt, got, exp),
                     'history': docs, 'default_runtime_state': dflt, 'expected_pass': exp,
                     'theorem_or_correspondence': 'C03 on DocTest.run with the flags of an earlier doctest of the run'}, True)
+    # ... nor the flags of an earlier STATEMENT: a directive written inside a statement (on any of its lines, also when the statement
+    # holds a line that is only a comment) counts for that statement alone
+    later = ">>> raise ValueError('actual message')\n%s\nValueError: another message" % HDR
+    for first in (">>> items = [1,  # xdoctest: +IGNORE_EXCEPTION_DETAIL\n...          # a remark on a line of its own\n...          2]",
+                  ">>> items = [1,\n...          # xdoctest: +IGNORE_EXCEPTION_DETAIL\n...          2]",
+                  ">>> for i in range(1):\n...     # xdoctest: +IGNORE_EXCEPTION_DETAIL\n...     pass",
+                  ">>> items = [1,\n>>>          # a remark\n>>>          2]  # xdoctest: +IGNORE_EXCEPTION_DETAIL",
+                  ">>> x = 1  # xdoctest: +IGNORE_EXCEPTION_DETAIL"):
+        docs = [first + '\n' + later]
+        got = _history(docs, {})
+        n += 1
+        if got != [False]:
+            ctx.violation('exception-history', {
+                'what': 'IGNORE_EXCEPTION_DETAIL written inside an earlier statement decides how a later expected exception is compared: passed=%r, by construction [False]' % (got,),
+                'history': docs, 'default_runtime_state': {}, 'expected_pass': [False],
+                'theorem_or_correspondence': 'C03 on DocTest.run with an inline flag of an earlier statement'}, True)
     ctx.evaluations += n
     ctx.count('option_histories', n)
 
